@@ -56,7 +56,8 @@ def build_module(ctx, name, source, ext=".pyx", directives=None, cflags=(), cplu
             "language_level": language_level, "global_options": global_options or {}}
     env = lib._clean_env({"PYTHONPATH": ctx.stage})
     p = subprocess.run([lib.PYTHON, "-c", _COMPILE_SNIPPET, json.dumps(spec)], cwd=d, env=env,
-                       stdout=subprocess.PIPE, stderr=subprocess.STDOUT, text=True, timeout=600)
+                       stdout=subprocess.PIPE, stderr=subprocess.STDOUT, text=True,
+                       timeout=float(os.environ.get("VERIF_CYTHON_TIMEOUT", "1500")))   # generous: an overloaded machine must not turn into exit 2
     if p.returncode != 0:
         raise BuildError("cython", p.stdout[-3000:])
     csrc = os.path.join(d, name + (".cpp" if cplus else ".c"))
